@@ -47,7 +47,12 @@ def rt_call(cmd, spec, timeout=900, script="rt.py"):
                     "PYTHONPATH": VERIF + os.pathsep + front.REPO, "PYVC_REPO": front.REPO,
                     "PYTHONDONTWRITEBYTECODE": "1"})
         argv = [VENV_PY, os.path.join(VERIF, "pyvc", script)] + ([cmd] if cmd else []) + [p]
-        r = subprocess.run(argv, capture_output=True, text=True, timeout=timeout, env=env, cwd=tmp)
+        try:
+            r = subprocess.run(argv, capture_output=True, text=True, timeout=timeout, env=env, cwd=tmp)
+        except subprocess.TimeoutExpired:
+            # (the code under test may not terminate - e.g. a loop that no longer advances: no verdict from the run-time side,
+            #  the deductive side reports the failed termination measure)
+            return {"status": "error", "why": f"run-time harness did not finish within {timeout} s"}
         try:
             return json.loads(r.stdout)
         except Exception:
